@@ -185,7 +185,8 @@ def generate_kou_jump(
         torch.exp(
             (mu - jump_per_year * m) * t + returns.cumsum(1) - (sigma ** 2) * t / 2
         )
-        * init_value.view(-1, 1)
+        # (.to(returns): a double-precision scalar initial state does not decide the dtype of the series)
+        * init_value.view(-1, 1).to(returns)
         * exp_jump_agg
     )
 
